@@ -11,7 +11,11 @@ use crate::error::SassResult;
 
 use super::{CompoundSelector, Pseudo, SelectorList, SimpleSelector, Specificity};
 
+#[cfg(not(grass_verif))]
 pub(crate) static COMPLEX_SELECTOR_UNIQUE_ID: AtomicU32 = AtomicU32::new(0);
+#[cfg(grass_verif)]
+pub(crate) static COMPLEX_SELECTOR_UNIQUE_ID: crate::verif::SchedAtomicU32 =
+    crate::verif::SchedAtomicU32::new(0, "complex_selector_id");
 
 #[derive(Clone, Debug)]
 pub(crate) struct ComplexSelectorHashSet(HashSet<u32>);
